@@ -31,6 +31,11 @@ PinPos(p, q) ==
         x == IF p.xq = 0 THEN x0 + p.inside * LS ELSE IF p.xq = 4 THEN x0 - p.inside * LS ELSE x0
         y == IF p.yq = 0 THEN y0 + p.inside * LS ELSE IF p.yq = 4 THEN y0 - p.inside * LS ELSE y0
     IN  <<x, y>>
+\* position of a pin with absolute offsets (units from the top-left corner; 0 = near edge, -1 or the current width/height = far edge)
+AbsPinPos(p, q) ==
+    LET x == IF p.xq = 0 THEN q[1] + p.inside * LS ELSE IF p.xq = -1 \/ p.xq * LS = q[3] - q[1] THEN q[3] - p.inside * LS ELSE q[1] + p.xq * LS
+        y == IF p.yq = 0 THEN q[2] + p.inside * LS ELSE IF p.yq = -1 \/ p.yq * LS = q[4] - q[2] THEN q[4] - p.inside * LS ELSE q[2] + p.yq * LS
+    IN  <<x, y>>
 PinsOf(r, s, c) == {i \in DOMAIN r.pins : r.pins[i].s = s /\ r.pins[i].c = c}
 \* the pin-attached ends of the snapshot: <<connector index, 1 | 2>>
 PinEnds(r) == {<<i, e>> \in (DOMAIN r.conns) \X {1, 2} : (IF e = 1 THEN r.conns[i].src ELSE r.conns[i].dst).t = 1}
@@ -63,7 +68,7 @@ Visits(rt, i, cps) == IF cps = <<>> THEN TRUE
 EndsOnCheckpoint(r, i, e) == LET rt == r.conns[i].raw  pt == IF e = 1 THEN rt[1] ELSE rt[Len(rt)]
                              IN  \E q \in DOMAIN r.conns[i].cps : r.conns[i].cps[q] = pt
 Tags(r) ==
-    (IF \E i \in DOMAIN r.pins : HasShape(r, r.pins[i].s) /\ r.pins[i].prop /\ r.pins[i].p # PinPos(r.pins[i], RectOf(r, r.pins[i].s))
+    (IF \E i \in DOMAIN r.pins : HasShape(r, r.pins[i].s) /\ r.pins[i].p # (IF r.pins[i].prop THEN PinPos(r.pins[i], RectOf(r, r.pins[i].s)) ELSE AbsPinPos(r.pins[i], RectOf(r, r.pins[i].s)))
      THEN {"pin-position-does-not-follow-shape"} ELSE {})
     \cup (IF \E pe \in PinEnds(r) : ~HasShape(r, EndRec(r, pe).s) \/ PinsOf(r, EndRec(r, pe).s, EndRec(r, pe).c) = {} THEN {"end-attached-to-missing-pin"} ELSE {})
     \cup (IF (\A pe \in PinEnds(r) : HasShape(r, EndRec(r, pe).s) /\ Len(r.conns[pe[1]].raw) >= 2) /\ Servable(r) /\ ~Assign(r, PinEnds(r), {})
